@@ -333,6 +333,28 @@ def run(prog, check):
                 why = 'every handler raises ValueError'
         check.ob('C10.R6', '%s::eval-of-%s' % (ic.key, derived), ok, '%s:%d' % (ic.module.rel, ev.lineno), why,
                  'an exogenous / initial value that cannot be evaluated')
+    # ---- R7: the horizon set on the solver object overrides the block's MaxTime whenever it is set (not None) ----
+    n7 = 0
+    for fn in sw.f.cls.methods.values():
+        for n in ast.walk(fn.node):
+            if isinstance(n, ast.Assign) and isinstance(n.targets[0], ast.Attribute) and n.targets[0].attr == 'MaxTime' and \
+                    isinstance(n.value, ast.Attribute) and n.value.attr == 'MaxTime' and unparse(n.value) == 'self.MaxTime':
+                par = getattr(n, '_parent', None)
+                ok, why = False, 'the override is unconditional or its guard was not recognised'
+                if isinstance(par, ast.If) and n in par.body:
+                    t = par.test
+                    if isinstance(t, ast.Compare) and unparse(t.left) == 'self.MaxTime' and isinstance(t.ops[0], (ast.IsNot, ast.NotEq)) and \
+                            isinstance(t.comparators[0], ast.Constant) and t.comparators[0].value is None:
+                        ok, why = True, 'guarded by `self.MaxTime is not None`'
+                    else:
+                        why = 'guarded by `%s`: a horizon of 0 set on the solver is ignored' % unparse(t)
+                n7 += 1
+                check.saw(fn)
+                check.ob('C10.R7', '%s::solver-horizon-override' % fn.key, ok, '%s:%d' % (fn.module.rel, n.lineno), why,
+                         'solver.MaxTime = 0 with a block that says MaxTime = 5: every series must have exactly one point')
+    check.ob('C10.R7', '%s::solver-horizon-override-present' % sw.f.cls.key, n7 >= 1, sw.f.cls.module.rel,
+             'the solver-level horizon is applied to the parsed block' if n7 else 'a horizon set on the solver is never applied', 'solver.MaxTime = 3')
+    check.floor('C10.R7', 2)
     check.floor('C10.R1', 6)
     check.floor('C10.R2', 5)
     check.floor('C10.R3', 3)
